@@ -91,6 +91,11 @@ def signature(path, keep_raise_args=False, ignore_attr_stores=(),
                 continue
             if k[0] in ('const', 'num'):
                 continue
+            if nones and k[0] == 'call':
+                # an argument that is None on this path (`x is None` is one
+                # of its conditions) is None, however it is spelled
+                k = ('call', k[1], tuple(('const', None) if a in nones else a
+                                         for a in k[2]), k[3])
             effects.append(('do', demsg(k)))
         elif e[0] == 'del':
             effects.append(('del', e[1]))
@@ -178,17 +183,101 @@ from .bdd import (_TooBig, BDD, STR_PREDICATES, _str_facts, _eq_atoms,
                   _care, canon)
 
 
+def _deep_none(k, nones):
+    """k with every occurrence of a value that is None (on this path)
+    replaced by the constant None."""
+    if not nones:
+        return k
+    if k in nones:
+        return ('const', None)
+    if isinstance(k, tuple):
+        return tuple(_deep_none(x, nones) if isinstance(x, tuple) else x
+                     for x in k)
+    if isinstance(k, frozenset):
+        return frozenset(_deep_none(x, nones) if isinstance(x, tuple) else x
+                         for x in k)
+    return k
+
+
+def _apply_nones(conds, outcome, eff):
+    """Rewrite a signature with what its own `k is None` literals say."""
+    nones = set(l[2] for l in conds if l[0] == 'cmp' and l[1] == 'is'
+                and len(l) == 4 and l[3] == ('const', None))
+    if not nones:
+        return conds, outcome, eff
+    keep = set(('cmp', 'is', k, ('const', None)) for k in nones)
+    c2 = frozenset(l if l in keep else _deep_none(l, nones) for l in conds)
+    c2 = frozenset(l for l in c2 if l != ('cmp', 'is', ('const', None),
+                                          ('const', None)))
+    return c2, _deep_none(outcome, nones), _deep_none(eff, nones)
+
+
+def _none_split(sigs, subjects):
+    """Case split on `k is None` for every subject k that a signature hands
+    on (returns, stores, passes to an effect call) without having decided
+    it: on the None side the value is None however it is spelled."""
+    out = set()
+    for conds, outcome, eff in sigs:
+        todo = [(conds, outcome, eff)]
+        for k in subjects:
+            lit = ('cmp', 'is', k, ('const', None))
+            nxt = []
+            for c, o, e in todo:
+                if lit in c or ('not', lit) in c:
+                    nxt.append((c, o, e))
+                    continue
+                hit = sym.mentions_any((o, e), [k]) or any(
+                    sym.mentions_any(l_, [k]) for l_ in c
+                    if l_ != lit and l_ != ('not', lit))
+                if not hit:
+                    nxt.append((c, o, e))
+                    continue
+                none = ('const', None)
+                o2 = ('return', none) if (o[0] == 'return' and o[1] == k) \
+                    else o
+                e2 = tuple(
+                    ('store', x[1], none) if (x[0] == 'store' and x[2] == k)
+                    else (('do', ('call', x[1][1], tuple(
+                        none if a_ == k else a_ for a_ in x[1][2]),
+                        x[1][3])) if (x[0] == 'do' and x[1][0] == 'call'
+                                      and k in x[1][2]) else x)
+                    for x in e)
+                nxt.append(_apply_nones(frozenset(c | {lit}), o2, e2))
+                nxt.append((frozenset(c | {('not', lit)}), o, e))
+            todo = nxt
+            if len(todo) > 64:
+                break
+        out.update(_apply_nones(*t) for t in todo)
+    return out
+
+
 def equivalent(a, b):
     """Are two sets of path signatures the same decision table?"""
     if a == b:
         return True
-    try:
+
+    def decide(x, y):
         bdd = BDD()
         eqs = {}
-        _eq_atoms(a, eqs)
-        _eq_atoms(b, eqs)
-        care = bdd.apply('and', _care(bdd, eqs), _str_facts(bdd, a | b))
-        return canon(a, bdd, care) == canon(b, bdd, care)
+        _eq_atoms(x, eqs)
+        _eq_atoms(y, eqs)
+        care = bdd.apply('and', _care(bdd, eqs), _str_facts(bdd, x | y))
+        return canon(x, bdd, care) == canon(y, bdd, care)
+    try:
+        if decide(a, b):
+            return True
+        # second look: values that are None on part of a path
+        subjects = set()
+        for conds, o, e in a | b:
+            for lit in conds:
+                for at in sym.bool_atoms(lit):
+                    if at[0] == 'cmp' and at[1] == 'is' and len(at) == 4 \
+                            and at[3] == ('const', None):
+                        subjects.add(at[2])
+        if not subjects or len(subjects) > 6:
+            return False
+        subjects = sorted(subjects, key=repr)
+        return decide(_none_split(a, subjects), _none_split(b, subjects))
     except (_TooBig, RecursionError):
         return False
 
